@@ -28,6 +28,10 @@ PROPS = {
              "Seeded search over operation-pool histories (SetOperation with re-signed duplicates of a fact, OperationHashes with random limits and reject-set filters, re-adds, pool restarts) on a real TempPool over goleveldb, sequentially and with 2-3 concurrent clients; every result is judged against the statement: at most L entries, distinct operations and facts, stored, passing the filter, never a previously filtered-out operation, most recently added operation per fact.",
              "trusted: harness bookkeeping of adds and filter decisions; recency by the fake clock",
              SIM + "; per-call reference oracle over the recorded history"),
+    "C23": P("storeh",
+             "Seeded search over histories of expel-operation pool calls on a real TempPool over goleveldb: set, traverse, lookup, remove by height, remove by fact, restart, and sweeps over every height and node; each answer is compared for exact set equality with an interval model.",
+             "trusted: the interval model in harness/storeh/c23.go",
+             SIM + "; reference-model comparison after every operation"),
 }
 
 NOT_APPLICABLE = {
